@@ -86,6 +86,40 @@ def _ref_hat(levelvec, ivec, x, lifted):
     return v
 
 
+def _class_weights(S, nsamples):
+    """Class weights as DataSet.split_one_vs_others produces them: 1 for the class itself, a negative weight in [-1, 0) for the others
+    (-1/4 stands for an unbalanced split); concrete values chosen by the solver keep the obligations linear."""
+    W = (1.0, -1.0, -0.25)
+    return np.array([W[S.choice('cls%d' % m, len(W))] for m in range(nsamples)])
+
+
+def rhs_large(S, levelvecs, nsamples, with_classes):
+    """The large-grid (>= 200 points) implementation of the uniform right-hand side, run on small grids by replacing the literal size threshold
+    in the function's current code object (see harness/c17.py), for a SEQUENCE of component grids on ONE operation object - as the combination
+    technique evaluates them.  Every right-hand side is the (signed) sample mean of each basis function."""
+    from harness.c17 import threshold, LARGE
+    dim = len(levelvecs[0])
+    xs = _samples(S, nsamples, dim)
+    data = np.array(xs, dtype=object if S.lifted else float)
+    classes = _class_weights(S, nsamples) if with_classes else None
+    with threshold(LARGE, ['calculate_B']):
+        op = _op(S, dim, levelvecs[0], classes=classes, data=data)
+        for g, levelvec in enumerate(levelvecs):
+            op.grid.numPoints = 2 ** np.asarray(levelvec, dtype=int) - 1
+            b = op.calculate_B(data, list(levelvec))
+            idx = list(itertools.product(*[range(1, 2 ** l) for l in levelvec]))
+            S.prove(len(b) == len(idx), 'rhs-large:one-entry-per-basis-function')
+            ok = True
+            for n, iv in enumerate(idx):
+                want = 0
+                for m in range(nsamples):
+                    sign = classes[m] if classes is not None else 1.0
+                    want = want + sign * _ref_hat(levelvec, iv, xs[m], S.lifted)
+                want = want / nsamples
+                ok = sym_and(ok, S.eq(b[n], want))
+            S.prove(ok, 'rhs-large:b-is-the-(signed)-sample-mean-of-each-basis-function-(grid %d of the sequence)' % (g + 1))
+
+
 def rhs(S, levelvec, nsamples, with_classes):
     dim = len(levelvec)
     xs = [[S.real('x%d_%d' % (m, k)) for k in range(dim)] for m in range(nsamples)]
@@ -96,7 +130,7 @@ def rhs(S, levelvec, nsamples, with_classes):
     data = np.array(xs, dtype=object if S.lifted else float)
     classes = None
     if with_classes:
-        classes = np.array([1.0 if S.flag('cls%d' % m) else -1.0 for m in range(nsamples)])
+        classes = _class_weights(S, nsamples)
     op = _op(S, dim, levelvec, classes=classes, data=data)
     b = op.calculate_B(data, list(levelvec))
     idx = list(itertools.product(*[range(1, 2 ** l) for l in levelvec]))
@@ -275,7 +309,7 @@ def rhsdw(S, npts, nsamples, with_classes):
     data = np.array(xs, dtype=object if S.lifted else float)
     classes = None
     if with_classes:
-        classes = np.array([1.0 if S.flag('cls%d' % m) else -1.0 for m in range(nsamples)])
+        classes = _class_weights(S, nsamples)
     op = _dw_op(S, dim, classes=classes, data=data)
     b = op.calculate_B_dimension_wise(data, stripes, levels)
     idx = list(itertools.product(*[range(1, n + 1) for n in npts]))
@@ -383,6 +417,11 @@ def jobs(tier):
         for wc in (False, True):
             js.append(Job('rhs[l=%s,samples=%d,%s]' % ('x'.join(map(str, lv)), ns, 'classes' if wc else 'plain'), rhs, {'levelvec': list(lv), 'nsamples': ns, 'with_classes': wc},
                           validate=(5 if q else 2), timeout_ms=30000, budget_s=(300 if q else 1500)))
+    for lvs, ns in ([(((2,), (3,), (2,)), 1), (((2, 1), (1, 2), (2, 1)), 1), (((2, 2), (2, 1)), 1)] if q else
+                    [(((2,), (3,), (2,)), 2), (((2, 1), (1, 2), (2, 1)), 2), (((2, 2), (2, 1), (1, 2)), 1), (((3, 2), (2, 3)), 1), (((2, 2, 1), (1, 2, 2)), 1)]):
+        for wc in (False, True):
+            js.append(Job('rhs-large[l=%s,samples=%d,%s]' % ('+'.join('x'.join(map(str, lv)) for lv in lvs), ns, 'classes' if wc else 'plain'), rhs_large,
+                          {'levelvecs': [list(lv) for lv in lvs], 'nsamples': ns, 'with_classes': wc}, validate=(5 if q else 2), timeout_ms=30000, budget_s=(300 if q else 1500)))
     for lv in ([(1,), (2,), (3,), (1, 1), (2, 1), (2, 2)] if q else [(1,), (2,), (3,), (4,), (1, 1), (2, 1), (2, 2), (3, 2), (2, 2, 1)]):
         js.append(Job('hats[l=%s]' % 'x'.join(map(str, lv)), hats, {'levelvec': list(lv)}, validate=(5 if q else 2), timeout_ms=30000, budget_s=(300 if q else 1500)))
     for lv in ([(2,), (2, 1)] if q else [(2,), (3,), (2, 1)]):
